@@ -56,6 +56,18 @@ TEXT = {
     "C19": ("MUSTPASS/WHO/TABLE rules on the database layer",
             "Decides the application's half of durability: every insert_* commits on every normal path before returning; no `with <database>:` deferral anywhere and commit() reaches connection.commit(); journal settings tracked through _initial_statements (file databases end in WAL + synchronous NORMAL; temporary DELETE always followed by WAL), no other pragma writers; IF NOT EXISTS schemas, INSERT OR IGNORE on keyed tables, check_database commits; INSERT/SELECT column order agrees with to/from_database_tuple. Does not decide SQLite's atomic commit or behaviour at each kill point.",
             "Trusted: SQLite WAL atomic commit under process kill."),
+    "C02": ("TERM/OFFSET/TABLE/SIBLING rules: symbolic inverse of to_pack_list/from_unpack_list through the constructor, abstract offset run of every Packer, name grammar + documentation table, bit masks, cell codec",
+            "Decides for every hand-written Serializable, every VariablePayload definition and every Packer: the decoder is the inverse of the encoder as terms (finite enumeration for bit selectors and the documented connection-type domain), formats written equal format_list, the bytes read by unpack tile [offset, returned offset) on every path and pack writes the same layout with the same length format and unit, names/format arity agree, registered format names mean what their name spells and what doc/reference/serialization.rst documents, bit masks agree, cell codec agrees. Does not decide value-level behaviour of struct/inet_* (stdlib) nor value ranges.",
+            "Trusted: CPython struct/socket/array semantics; 20-byte ids in preference lists; documented connection-type domain."),
+    "C13": ("MUSTPASS + DECISION tables on the introduction/puncture code",
+            "Decides only the two clauses visible in code shape: every path that hands out a non-null introduction also sends a puncture request (requester LAN, requester WAN, request identifier) to the introduced peer, the requester is never introduced to itself; the LAN/WAN selection at the requester and the puncture target are decision tables over (wan known, lan known, same public IP) equal to the stated tables. Does NOT decide reachability for the 4x4 NAT matrix: that needs a filtering/translating network model.",
+            "Trusted: address_in_lan_subnets/address_is_lan classification."),
+    "C18": ("POLY: exact integer-polynomial normal forms of FP2Value's operator bodies compared with the reference arithmetic of fractions over Z[x]/(x^2+x+1); symbolic extended-Euclid invariant; SIBLING codec arity",
+            "Proof of the field-arithmetic clause only: __add__/__sub__/__mul__/__floordiv__/inverse/normalize equal the reference coefficients as polynomials over Z (hence for all operands and all moduli), derived laws (commutativity, x-y = x+(0-y), (x//y)*y ~ x) hold on the implementation's own polynomials, _modinv maintains the extended-Euclid invariant, intpow is square-and-multiply; key/attestation codec arity agrees. Does NOT decide completeness/soundness of the exact-match and range proofs or the Boneh scheme: number theory over run-time keys and randomness.",
+            "Trusted: CPython ast; sa/poly.py exact arithmetic; reading method bodies as straight-line arithmetic (anything else is ANALYSIS-ERROR)."),
+    "C20": ("TEMPLATE/LINT/SIBLING/TABLE rules on the code generator's source (f-string templates, comprehensions) - nothing is executed",
+            "Decides that generator, interpreter and dataclass front end are built from the same rules for every definition: names in order, defaults exactly under `name in defaults` and rendered with repr, 8 names per 'bits' format with a running index, fix_pack_/fix_unpack_ hooks exactly under hasattr on the source class, same str/list/else format derivation, vp_compile feeds and installs from the same class, type_map returns only registered formats from the same field order. Does not decide byte equality for concrete instances (execution).",
+            "Trusted: C02 for packer symmetry; wire values are never None."),
 }
 
 NOT_BUILT_REASON = "check not built yet (build in progress; see DESIGN.md section 3)"
